@@ -656,6 +656,10 @@ class _PeerTcpConnection(_SocketWrapper):
                 self._message_router.deliver_message(reply)
             except QMI_MessageDeliveryException:
                 _logger.debug("Failed to deliver error reply to %r while closing socket", source_address)
+            except Exception:
+                # This happens if a "handle_message()" method raises an unexpected exception.
+                # Continue, so the remaining pending requests still get their error reply.
+                _logger.exception("Unexpected exception while delivering error reply to %r", source_address)
         self._pending_requests.clear()
 
     def _handle_read(self) -> None:
